@@ -326,3 +326,9 @@ func symConvHook(utDst, utSrc types.Type, x value) (value, bool) {
 }
 
 var _ = utf8.RuneError
+
+// symRef stands for &elems[idx] with a symbolic idx when its only use is a load.
+type symRef struct {
+	elems []value
+	idx   sym
+}
